@@ -31,6 +31,7 @@ import (
 	"github.com/nuts-foundation/nuts-node/storage/orm"
 	"github.com/nuts-foundation/nuts-node/vdr/log"
 	"github.com/nuts-foundation/nuts-node/vdr/resolver"
+	"sync"
 )
 
 var _ core.Configurable = (*store)(nil)
@@ -70,6 +71,8 @@ type store struct {
 	db                  stoabs.KVStore
 	storageProvider     storage.Provider
 	conflictedDocuments map[string]conflictedDocument
+	// conflictedMutex guards conflictedDocuments: Add (network) writes it while Conflicted (API, diagnostics) reads it.
+	conflictedMutex sync.RWMutex
 }
 
 // New returns a new vdrStore.Store that still needs to be initialized
@@ -229,10 +232,7 @@ func (tl *store) loadConflictedDocuments() error {
 				return fmt.Errorf("read document failed: %w", err)
 			}
 
-			tl.conflictedDocuments[document.ID.String()] = conflictedDocument{
-				didDocument: document,
-				metadata:    metadata,
-			}
+			tl.addCachedConflict(document, metadata)
 
 			return nil
 		}, stoabs.BytesKey{})
@@ -244,6 +244,8 @@ func (tl *store) loadConflictedDocuments() error {
 }
 
 func (tl *store) addCachedConflict(document did.Document, metadata documentMetadata) {
+	tl.conflictedMutex.Lock()
+	defer tl.conflictedMutex.Unlock()
 	tl.conflictedDocuments[document.ID.String()] = conflictedDocument{
 		didDocument: document,
 		metadata:    metadata,
@@ -251,11 +253,20 @@ func (tl *store) addCachedConflict(document did.Document, metadata documentMetad
 }
 
 func (tl *store) removeCachedConflict(document did.Document) {
+	tl.conflictedMutex.Lock()
+	defer tl.conflictedMutex.Unlock()
 	delete(tl.conflictedDocuments, document.ID.String())
 }
 
 func (tl *store) Conflicted(fn resolver.DocIterator) error {
+	// iterate over a snapshot, so fn is not called with the lock held (it may call the store again)
+	tl.conflictedMutex.RLock()
+	snapshot := make([]conflictedDocument, 0, len(tl.conflictedDocuments))
 	for _, conflicted := range tl.conflictedDocuments {
+		snapshot = append(snapshot, conflicted)
+	}
+	tl.conflictedMutex.RUnlock()
+	for _, conflicted := range snapshot {
 		if err := fn(conflicted.didDocument, conflicted.metadata.asVDRMetadata()); err != nil {
 			return err
 		}
